@@ -57,7 +57,19 @@ pub(crate) struct File {
 struct FileInner {
     std_file: StdFile,
     size: AtomicU64,
+    /// Number of appended bytes whose write has finished (`size` is reserved before the write starts)
+    written_size: AtomicU64,
+    /// Number of appended bytes that were completely written when the last finished sync started
     synced_size: AtomicU64
+}
+
+/// Registers `len` appended bytes as written when the write is over (successfully or not)
+struct WriteCompletion<'a>(&'a AtomicU64, u64);
+
+impl<'a> Drop for WriteCompletion<'a> {
+    fn drop(&mut self) {
+        self.0.fetch_add(self.1, Ordering::SeqCst);
+    }
 }
 
 #[derive(PartialEq, Eq)]
@@ -87,6 +99,7 @@ impl File {
         if Self::can_run_inplace(len) {
             Self::inplace_sync_call(move || {
                 let offset = file_inner.size.fetch_add(len, Ordering::SeqCst);
+                let _completion = WriteCompletion(&file_inner.written_size, len);
                 let (res, data) = c.create(offset);
                 Self::write_data(&file_inner.std_file, offset, res)?;
                 Ok(data)
@@ -94,6 +107,7 @@ impl File {
         } else {
             Self::background_sync_call(move || {
                 let offset = file_inner.size.fetch_add(len, Ordering::SeqCst);
+                let _completion = WriteCompletion(&file_inner.written_size, len);
                 let (res, data) = c.create(offset);
                 Self::write_data(&file_inner.std_file, offset, res)?;
                 Ok(data)
@@ -125,6 +139,7 @@ impl File {
         if Self::can_run_inplace(buf.len() as u64) {
             Self::inplace_sync_call(move || {
                 let offset = file_inner.size.fetch_add(buf.len() as u64, Ordering::SeqCst);
+                let _completion = WriteCompletion(&file_inner.written_size, buf.len() as u64);
                 #[cfg(feature = "pearl_verif")]
                 let _verif_io = crate::verif::io::on_write(&file_inner.std_file, offset, &buf)?;
                 file_inner.std_file.write_all_at(&buf, offset)
@@ -132,6 +147,7 @@ impl File {
         } else {
             Self::background_sync_call(move || {
                 let offset = file_inner.size.fetch_add(buf.len() as u64, Ordering::SeqCst);
+                let _completion = WriteCompletion(&file_inner.written_size, buf.len() as u64);
                 #[cfg(feature = "pearl_verif")]
                 let _verif_io = crate::verif::io::on_write(&file_inner.std_file, offset, &buf)?;
                 file_inner.std_file.write_all_at(&buf, offset)
@@ -181,7 +197,9 @@ impl File {
 
     pub(crate) async fn fsyncdata(&self) -> IOResult<()> {
         let file_inner = self.inner.clone();
-        let size = self.size();
+        // Only writes that have finished are covered by the sync: bytes of a write that is still in flight
+        // (its size is reserved already) must stay dirty
+        let size = self.inner.written_size.load(Ordering::SeqCst);
         Self::background_sync_call(
             move || {
                #[cfg(feature = "pearl_verif")]
@@ -279,6 +297,7 @@ impl File {
     async fn from_tokio_file(file: TokioFile) -> IOResult<Self> {
         let size = file.metadata().await?.len();
         let synced_size = AtomicU64::new(size);
+        let written_size = AtomicU64::new(size);
         let size = AtomicU64::new(size);
         let std_file = file.try_into_std().expect("tokio file into std");
 
@@ -286,6 +305,7 @@ impl File {
             inner: Arc::new(FileInner { 
                 std_file, 
                 size,
+                written_size,
                 synced_size
             })
         };
